@@ -115,6 +115,10 @@ func (m *MainLoop) run(ctx context.Context) {
 
 		case message := <-m.messagesChannel:
 			parsedMessage := interfaces.ToConsensusMessage(message)
+			if parsedMessage == nil {
+				m.logger.Info("LHFLOW LHMSG MAINLOOP IGNORING message with unrecognized content")
+				continue
+			}
 
 			m.logger.Debug("LHFLOW LHMSG MAINLOOP RECEIVED %v from %v for H=%d V=%d", parsedMessage.MessageType(), parsedMessage.SenderMemberId(), parsedMessage.BlockHeight(), parsedMessage.View())
 
